@@ -173,6 +173,22 @@ class Kernel(object):
         if p.doom is None or deadline < p.doom[0]:
             p.doom = (deadline, status)
 
+    # -- pid numbers as the daemon sees them.  The model (and everything the harness logs) numbers processes in spawn
+    # order; with `desc` the daemon is shown numbers that DEcrease in spawn order (a pid counter that wrapped around):
+    # code that takes "higher pid" for "younger process" then disagrees with the model.
+    PID_TOP = 2000000
+    desc = False
+
+    def ext(self, p):
+        if self.desc and isinstance(p, int) and not isinstance(p, bool) and p in self.procs:
+            return self.PID_TOP - p
+        return p
+
+    def inn(self, q):
+        if self.desc and isinstance(q, int) and not isinstance(q, bool) and (self.PID_TOP - q) in self.procs:
+            return self.PID_TOP - q
+        return q
+
     def waitpid(self, pid, flags=None):
         """waitpid(pid, WNOHANG) for pid > 0 or -1; returns (pid, status) / (0, 0) / raises ECHILD.  The daemon
         never asks for stopped children; a caller that does (WUNTRACED) is told about each stop once, as POSIX says"""
@@ -246,11 +262,12 @@ class Kernel(object):
 class _FakeChild(object):
     def __init__(self, k, pid):
         self.k = k
-        self.pid = pid
+        self.ipid = pid
+        self.pid = k.ext(pid)
 
     def send_signal(self, sig):
         import psutil
-        if not _psutil_kill(self.k, self.pid, sig, ""):
+        if not _psutil_kill(self.k, self.ipid, sig, ""):
             raise psutil.NoSuchProcess(self.pid)
 
 
@@ -272,7 +289,8 @@ def make_popen(k):
         def __init__(self, args, cwd=None, shell=False, preexec_fn=None, env=None, close_fds=True,
                      executable=None, stdout=None, stderr=None):
             self.args = args
-            self.pid = k.spawn({"args": args})
+            self.ipid = k.spawn({"args": args})
+            self.pid = k.ext(self.ipid)
             self.returncode = None
             # a watcher with stream options asks for pipes: real ones (the Redirector registers their descriptors with the
             # loop); nothing is ever written, the write ends live as long as this object
@@ -295,17 +313,17 @@ def make_popen(k):
                 wid = args[args.index("--wid") + 1]
             except (ValueError, IndexError, AttributeError):
                 pass
-            k.out("o spawn %d %s %s" % (self.pid, enc(name), wid))
+            k.out("o spawn %d %s %s" % (self.ipid, enc(name), wid))
 
         def poll(self):
             if self.returncode is not None:
                 return self.returncode
             try:
-                pid, sts = k.waitpid(self.pid)
+                pid, sts = k.waitpid(self.ipid)
             except OSError:
                 self.returncode = 0                      # subprocess: ECHILD -> returncode 0
                 return self.returncode
-            if pid == self.pid:
+            if pid == self.ipid:
                 if os.WIFSIGNALED(sts):
                     self.returncode = -os.WTERMSIG(sts)
                 else:
@@ -313,24 +331,24 @@ def make_popen(k):
             return self.returncode
 
         def send_signal(self, sig):
-            if not _psutil_kill(k, self.pid, sig, ""):
+            if not _psutil_kill(k, self.ipid, sig, ""):
                 raise psutil.NoSuchProcess(self.pid)
 
         def terminate(self):
-            if not _psutil_kill(k, self.pid, signal.SIGTERM, "t"):
+            if not _psutil_kill(k, self.ipid, signal.SIGTERM, "t"):
                 raise psutil.NoSuchProcess(self.pid)
 
         def status(self):
-            st = k.state_of(self.pid)
+            st = k.state_of(self.ipid)
             if st == "g":
                 raise psutil.NoSuchProcess(self.pid)
             return psutil.STATUS_ZOMBIE if st == "z" else psutil.STATUS_SLEEPING
 
         def is_running(self):
-            return k.state_of(self.pid) != "g"
+            return k.state_of(self.ipid) != "g"
 
         def children(self, recursive=False):
-            c = k.children(self.pid, recursive)
+            c = k.children(self.ipid, recursive)
             if c is None:
                 raise psutil.NoSuchProcess(self.pid)
             return [_FakeChild(k, p) for p in c]
@@ -376,7 +394,8 @@ class _FakeOs(object):
         return getattr(os, name)
 
     def waitpid(self, pid, flags):
-        return self._k.waitpid(pid, flags)
+        p, sts = self._k.waitpid(self._k.inn(pid) if pid != -1 else -1, flags)
+        return self._k.ext(p), sts
 
 
 class _FakeTime(object):
@@ -403,6 +422,8 @@ class FakePub(object):
         _, rest = topic.split(".", 1)
         wname, t = rest.rsplit(".", 1)
         pid = msg.get("process_pid", "-")
+        if hasattr(self.k, "inn"):
+            pid = self.k.inn(pid)
         extra = "-"
         if t == "reap":
             extra = str(msg.get("exit_code"))
@@ -417,6 +438,32 @@ class FakePub(object):
 
     def bind(self, *a):
         pass
+
+
+def _pids_back(k, resp):
+    """a reply of the daemon with the pid numbers it was shown translated back (lists of pids are sorted by the daemon: sort again)"""
+    def back(v):
+        if isinstance(v, bool):
+            return v
+        if isinstance(v, int):
+            return k.inn(v)
+        if isinstance(v, str) and v.isdigit():
+            return str(k.inn(int(v)))
+        return v
+    out = dict(resp)
+    if isinstance(out.get("pids"), list):
+        out["pids"] = [back(x) for x in out["pids"]]
+    if "process" in out:
+        out["process"] = back(out["process"])
+    i = out.get("info")
+    if isinstance(i, dict):
+        if "started" in i:
+            out["info"] = {kk: (sorted(back(x) for x in vv) if isinstance(vv, list) else vv) for kk, vv in i.items()}
+        else:
+            out["info"] = {back(kk): vv for kk, vv in i.items()}
+    if isinstance(out.get("infos"), dict):
+        out["infos"] = {n: ({back(kk): vv for kk, vv in d.items()} if isinstance(d, dict) else d) for n, d in out["infos"].items()}
+    return out
 
 
 class FakeStream(object):
@@ -445,6 +492,8 @@ class FakeStream(object):
         if self.closed:
             raise IOError("stream is closed")
         resp = json.loads(data)
+        if getattr(self.k, "desc", False):
+            resp = _pids_back(self.k, resp)
         if resp.get("status") == "error" and not getattr(self.k, "blocked", False) and hasattr(self.k, "reasons"):
             self.k.reasons.append(str(resp.get("reason")))      # (the live kernel of harness/live.py keeps no such list)
         cid = self._cid.decode() if isinstance(self._cid, bytes) else str(self._cid)
@@ -628,6 +677,7 @@ class Sim(object):
     def __init__(self, sc):
         self.sc = sc
         self.k = Kernel(sc.get("behav"))
+        self.k.desc = bool(sc.get("pid_desc"))
         self.sleepers = []       # (deadline_ms, seq, future)
         self.seq = 0
         self.blocked = False
@@ -847,7 +897,19 @@ class Sim(object):
                 else:
                     self._watch(f)
             elif kind in ("req", "raw"):
-                raw = json.dumps(op[1]).encode() if kind == "req" else bytes(op[1])
+                msg = op[1]
+                if kind == "req" and getattr(k, "desc", False) and isinstance(msg, dict) and isinstance(msg.get("properties"), dict):
+                    pr = dict(msg["properties"])
+                    for key in ("pid", "childpid", "process"):
+                        v = pr.get(key)
+                        if isinstance(v, bool):
+                            continue
+                        if isinstance(v, int):
+                            pr[key] = k.ext(v)
+                        elif isinstance(v, str) and v.strip().lstrip("+").isdigit() and int(v) in k.procs:
+                            pr[key] = v.replace(v.strip().lstrip("+"), str(k.ext(int(v))))
+                    msg = dict(msg, properties=pr)
+                raw = json.dumps(msg).encode() if kind == "req" else bytes(op[1])
                 try:
                     self.arb.ctrl.handle_message([("c%d" % (op[2] if len(op) > 2 else 0)).encode(), raw])
                 except Blocked:
@@ -978,7 +1040,8 @@ class Sim(object):
         arb = self.arb
         ws = []
         for w in arb.watchers:
-            procs = ",".join("%d.%s.%d" % (p.pid, p.wid, 1 if p.stopping else 0) for p in w.processes.values()) or "-"
+            inn = getattr(self.k, "inn", lambda x: x)          # (the live kernel of harness/live.py shows real pids as they are)
+            procs = ",".join("%d.%s.%d" % (inn(p.pid), p.wid, 1 if p.stopping else 0) for p in w.processes.values()) or "-"
             np_ = w.numprocesses
             ws.append("%s:%s:%s:%s" % (enc(w.name), w._status, np_, procs))
         names = ",".join(enc(n) for n in sorted(arb._watchers_names)) or "-"
